@@ -215,7 +215,15 @@ impl ObjectStore for ScriptedObjectStore {
             self.gate().await;
             let (kind, id) = classify(key);
             let fault = self.fault_for(&format!("get_{kind}"));
-            let r = if fault.is_some() {
+            let r = if fault.as_deref() == Some("corrupt") {
+                self.inner.lock().unwrap().objs.get(key).cloned().map(|mut d| {
+                    let at = if d.len() > 64 { d.len() / 2 } else { d.len().saturating_sub(1) };
+                    if !d.is_empty() {
+                        d[at] ^= 0x10;
+                    }
+                    d
+                }).ok_or_else(|| IoError::new(ErrorKind::NotFound, format!("Key not found: {key}")))
+            } else if fault.is_some() {
                 Err(io_err("injected get failure"))
             } else {
                 self.inner
@@ -227,7 +235,7 @@ impl ObjectStore for ScriptedObjectStore {
                     .ok_or_else(|| IoError::new(ErrorKind::NotFound, format!("Key not found: {key}")))
             };
             self.log(json!({"a": "call", "who": self.actor, "op": "get", "key": key, "kind": kind, "id": id,
-                            "res": if r.is_ok() { "ok" } else if fault.is_some() { "fail" } else { "notfound" }}));
+                            "res": if fault.as_deref() == Some("corrupt") { "corrupt" } else if r.is_ok() { "ok" } else if fault.is_some() { "fail" } else { "notfound" }}));
             r
         })
     }
@@ -373,6 +381,10 @@ pub fn table(name: &str) -> Vec<Value> {
     }
 }
 
+fn wb_config_with(max_deltas: usize) -> WriteBufferConfig {
+    WriteBufferConfig { max_deltas, ..wb_config() }
+}
+
 fn wb_config() -> WriteBufferConfig {
     WriteBufferConfig {
         flush_interval: Duration::from_secs(3600),
@@ -427,7 +439,12 @@ async fn run_scenario_async(scn: Value, store: ScriptedObjectStore) {
     };
     let by_id: HashMap<u64, Value> = tbl.iter().map(|d| (d["id"].as_u64().unwrap(), d.clone())).collect();
     let fs = store.as_actor("F");
-    let mut sp = StreamingPersistence::new(Arc::new(fs.clone()), PREFIX.to_string(), 1, wb_config()).await.unwrap();
+    // "maxd": the buffer's max_deltas (a flush of a longer backlog may be cut into several segments)
+    let wbc = match scn["maxd"].as_u64() {
+        Some(n) if n > 0 => wb_config_with(n as usize),
+        _ => wb_config(),
+    };
+    let mut sp = StreamingPersistence::new(Arc::new(fs.clone()), PREFIX.to_string(), 1, wbc).await.unwrap();
     let ops = scn["ops"].as_array().cloned().unwrap_or_default();
     for (i, op) in ops.iter().enumerate() {
         let opi = i + 1;
@@ -551,12 +568,12 @@ fn random_scenario(rng: &mut impl Rng, i: usize) -> Value {
             2 => json!({"id": id, "k": "h", "t": "hdel", "f": format!("f{}", rng.gen_range(1..=3)), "ts": ts1 + 2, "r": r}),
             3 => json!({"id": id, "k": format!("s{}", rng.gen_range(1..=2)), "t": "del", "ts": ts1 + 1, "r": r}),
             _ => json!({"id": id, "k": format!("s{}", rng.gen_range(1..=2)), "t": "set", "v": format!("v{id}"), "ts": ts1 + 1, "r": r,
-                        "pad": if rng.gen_range(0..5) == 0 { 300 } else { 0 }}),
+                        "pad": if i % 40 == 7 && id == 2 { 17 << 20 } else if rng.gen_range(0..5) == 0 { 300 } else { 0 }}),
         };
         deltas.push(d);
     }
     let faults = ["none", "none", "get_man:fail", "put_seg:fail", "put_seg:partial", "put_tmp:fail", "put_tmp:partial", "rename:fail", "rename:applied"];
-    let cfaults = ["none", "none", "get_man:fail", "get_seg:fail", "put_seg:fail", "put_seg:partial", "put_tmp:fail", "rename:fail", "rename:applied", "delete_seg:fail"];
+    let cfaults = ["none", "none", "get_man:fail", "get_seg:fail", "get_seg:corrupt", "put_seg:fail", "put_seg:partial", "put_tmp:fail", "rename:fail", "rename:applied", "delete_seg:fail"];
     let mut ops = Vec::new();
     for id in 1..=n {
         ops.push(json!(["push", id]));
@@ -577,7 +594,9 @@ fn random_scenario(rng: &mut impl Rng, i: usize) -> Value {
     // tombstone GC horizon in the code's own reading (Lamport time as ms): now - ttl
     let now = 1000;
     let ttl = if i % 3 == 0 { 1000 - rng.gen_range(0..6) } else { 1000 };
-    json!({"deltas": deltas, "ops": ops, "now": now, "ttl": ttl,
+    // every fifth scenario: a buffer limit below the backlog (a flush may be cut into several segments)
+    let maxd = if i % 5 == 0 { rng.gen_range(1..=3) } else { 0 };
+    json!({"deltas": deltas, "ops": ops, "now": now, "ttl": ttl, "maxd": maxd,
            "target": if i % 4 == 0 { 250 } else { 1 << 20 }, "maxsel": rng.gen_range(2..=5)})
 }
 
